@@ -67,7 +67,8 @@ def cases(tier, seed):
             for (eq_type, dx) in (("ODE", 0), ("statio_PDE", 2), ("nonstatio_PDE", 1)):
                 for o in (1, 2):
                     for shared in ((False, True, "int") if o == 2 else (False,)):
-                        out.append(dict(type="hyper", hp=hp, hidden=list(hidden), eq_type=eq_type, dx=dx, o=o, shared=shared, key=seed + 13))
+                        for (it, ot) in (("none", "none"), ("scale", "inputs"), ("scale", "none"), ("none", "inputs")):
+                            out.append(dict(type="hyper", hp=hp, hidden=list(hidden), eq_type=eq_type, dx=dx, o=o, shared=shared, it=it, ot=ot, key=seed + 13))
     return out
 
 
@@ -214,7 +215,10 @@ def run_hyper(case):
     slices = (jnp.s_[0:1], jnp.s_[1:2]) if case["shared"] else None
     if case["shared"] == "int":
         slices = (jnp.s_[0:1], jnp.s_[1])
-    us = jinns.utils.create_HYPERPINN(key, eqx_list(n_in, case["hidden"], o, "tanh"), eq_type, hp, hsize, dx, shared_pinn_outputs=slices, eqx_list_hyper=hyper_list)
+    it = (lambda inp, p: inp * p.eq_params["c"]) if case.get("it") == "scale" else None
+    ot = (lambda inp, out, p: out + jnp.sum(inp)) if case.get("ot") == "inputs" else None
+    us = jinns.utils.create_HYPERPINN(key, eqx_list(n_in, case["hidden"], o, "tanh"), eq_type, hp, hsize, dx, input_transform=it, output_transform=ot,
+                                      shared_pinn_outputs=slices, eqx_list_hyper=hyper_list)
     us = us if case["shared"] else [us]
     v = []
     for ui, u in enumerate(us):
@@ -238,13 +242,15 @@ def run_hyper(case):
                 got, inp = u(jnp.asarray(x), params), x
             else:
                 got, inp = u(jnp.asarray(t), jnp.asarray(x), params), np.concatenate([t, x])
-            h = inp
+            h = inp * 5.0 if case.get("it") == "scale" else inp
             nl = len(chunks) // 2
             for k in range(nl):
                 h = chunks[2 * k] @ h + chunks[2 * k + 1]
                 if k < nl - 1:
                     h = np.tanh(h)
             raw = h.squeeze()
+            if case.get("ot") == "inputs":
+                raw = raw + np.sum(inp)  # the output transform receives the *original* inputs
             if case["shared"]:
                 raw = raw[[slice(0, 1), slice(1, 2)][ui]]
             exp = np.atleast_1d(raw)
